@@ -11,6 +11,8 @@ ENGINES = [
      "kind_free_text": "rapid state machines comparing the real stores / API with in-memory reference models after every step"},
     {"name": "crashkit", "path": "ptrace/sysstop.c", "serves_properties": ["C07", "C08", "C16", "C18"],
      "kind_free_text": "ptrace supervisor (count / kill-at-k / hold-at-k over file, socket and exec system calls) + recorder helper executing scripted store operations with acknowledgements"},
+    {"name": "cronsim", "path": "harness/chk/c09", "serves_properties": ["C09"],
+     "kind_free_text": "simulated minute ticks against the real daemon objects (build-tagged tick/watcher hooks) with a recording fake client.Client; independent cron matcher in harness/cronmodel"},
     {"name": "authgrid", "path": "harness/chk/c17", "serves_properties": ["C17"],
      "kind_free_text": "header grammar x auth configuration grid through the real middleware chain with httptest"},
     {"name": "loaderfuzz", "path": "harness/yamlgen", "serves_properties": ["C13", "C19"],
@@ -120,6 +122,12 @@ META = {
         "technique": "fault injection driven by property-based generation (rapid): generated histories x operation scripts x kill point k at system-call boundaries (ptrace supervisor) x synthesised torn-write prefixes; acknowledgement-based durability oracle evaluated with the real store on the surviving directory",
         "level_text": "Fault enumeration over the system-call boundaries of the recording process for generated histories: sampled k in the quick tier, every k in the thorough tier, plus torn prefixes of the killed append.",
         "level_note": "Trusted: the supervisor's classification of file-system calls; the recorder's ACK protocol (an op is acknowledged only after its call returned). Process-kill model, not power loss.",
+    },
+    "C09": {
+        "engine": "cronsim", "design_ref": "DESIGN.md section 3 C09",
+        "technique": "property-based testing (rapid) of the real daemon objects under simulated minute ticks with a recording fake client; differential oracle = independent cron matcher + guard model, itself cross-checked against the library (self-check can only yield inconclusive)",
+        "level_text": "Generated search over cron grammar x calendar anchors x tick scripts (gaps, late/bunched ticks, restarts) x file events x run histories; every tick's Start/Stop/Restart calls compared with the model.",
+        "level_note": "Trusted: the ~120-line independent matcher (self-checked against the library each run); the fake client's fidelity (Start takes a moment, status = what it recorded). The real-time loop is not executed.",
     },
 }
 
